@@ -211,6 +211,28 @@ def run(chk):
             chk.instance(r_sr, key, sample=dict(function=f["q"], reachable_from_entry_points=inside, argument=why))
             if not ok:
                 chk.violation(r_sr, key, "%s: %s - when the replacement contains the search string the loop never ends (%s)" % (f["q"], "; ".join(w for w in why if "not beyond" in w), "reachable from the parse entry points" if inside else "library utility"), f["file"], lp["l"])
+    # ---- C20.cstr: C functions that read up to a NUL terminator
+    r_cs = chk.rule("C20.cstr", "a C library function that reads a NUL-terminated string (strto*, ato*, strlen, strcmp, sscanf) never gets the data() of a std::vector<char> or of a std::string_view, which carry no terminator", floor=6)
+    CSTR = ("strtof", "strtod", "strtold", "strtol", "strtoul", "strtoll", "strtoull", "atof", "atoi", "atol", "strlen", "strcmp", "strncmp", "strcpy", "strcat", "sscanf", "strchr", "strstr")
+    for f in fx.fns:
+        if not f.get("body") or f["q"] not in closure:
+            continue
+        for n in walk_fn(f):
+            if n["k"] != "Call" or (n.get("fn") or "").replace("std::", "") not in CSTR or not n.get("a"):
+                continue
+            for ai, a in enumerate(n["a"][:2]):
+                a0 = strip(a)
+                t_ = (a0.get("t") or "")
+                m_, o_ = meth(a0)
+                if not (m_ in ("data", "c_str") and o_ is not None):
+                    continue
+                ot = (strip(o_).get("t") or "")
+                key = "%s:%s@%s:%d" % (f["q"], (n.get("fn") or "").replace("std::", ""), show_line(f, n["l"]), ai)
+                unterminated = m_ == "data" and ("vector<char" in ot or "string_view" in ot or "basic_string_view" in ot or "array<char" in ot)
+                chk.instance(r_cs, key, sample=dict(function=f["q"], call=(n.get("fn") or ""), argument="%s() of %s" % (m_, ot[:60]), terminated=not unterminated))
+                if unterminated:
+                    chk.violation(r_cs, key, "%s passes the data() of a %s to %s, which reads until it finds a terminator: the read runs past the end of the buffer" % (f["q"], ot.replace("std::", "")[:40], (n.get("fn") or "")), f["file"], n["l"])
+
     # ---- C20.rawdata: the raw data vector of a deck item has whatever length the input record gave it
     r_rd = chk.rule("C20.rawdata", "a container taken from DeckItem::getData (its length is decided by the input record) is dereferenced with front()/back()/[k] only in a function that tests its size or emptiness", floor=2)
     for f in fx.fns:
